@@ -1,5 +1,5 @@
 # replay of a bounded stand-in violation (C15): re-run native/c15_hbar.py
 import sys
-print('gaussian homodyne-select hbar=3.1: second run reports the outcome 0.565685, selected 0.704273')
+print('gaussian X-Z-P: parity at hbar=2.0 is [0.6554], at hbar=0.5 it is [0.16385]')
 print('REPLAY-VIOLATION')
 sys.exit(1)
